@@ -9,7 +9,22 @@ def run(tier, seed):
       rule=('adaptively generated RPC sequences (17 RPC kinds, ~2/3 legal calls, every error kind reached) over 2 owners, 3 studies '
             '(one name a prefix of another), 3 workers, scripted Pythia; run on RAM and in-memory SQLite, every step compared '
             'with the model (response, datastore-call trace) plus final stored state; non-trivial = at least 3 successful calls'),
-      monitors=[svcrun.wrap(svcmon.c01_step)], backends=('ram', 'sqlmem'), extra=failing_writes_between_updates)
+      monitors=[svcrun.wrap(svcmon.c01_step)], backends=('ram', 'sqlmem'), extra=extras)
+
+
+def extras(rep, tier, seed, known, r):
+  b1, c1 = failing_writes_between_updates(rep, tier, seed, known, r)
+  b2, c2 = sibling_studies(rep, tier, seed, known, r)
+  return (b1 or b2), (c1 or c2)
+
+
+def sibling_studies(rep, tier, seed, known, r):
+  """Several studies of ONE owner whose names resemble each other (a_b, a_b2, axb), each with trials, and study deletions in
+  between: deleting or re-creating one study must not touch the trials of its siblings."""
+  from harness import svcmon
+  return svcrun.service_part(rep, 'C01', r, tier, known, monitors=[svcrun.wrap(svcmon.c01_step)], backends=('ram', 'sqlmem'),
+                             nseq_quick=12, nseq_thorough=120, length=(10, 22), tag='sib',
+                             profile={'owner2': 0.0, 'delete_study': 0.1, 'suggest': 0.3, 'fail': 0.02, 'warmup': 1.0})
 
 
 def failing_writes_between_updates(rep, tier, seed, known, r):
